@@ -66,7 +66,33 @@ def run_history(spec, y_full, n0, steps, case, shift=0):
     obs.append(("cutoff_after_fit", None if isinstance(c, Raised) else int(c)))
     if isinstance(c, Raised) or int(c) != cutoff:
         discs.append(D("cutoff_after_fit", "%s: cutoff %r expected %d" % (pools.describe(spec), c, cutoff)))
-    p = sut(f.predict, None if need_fit and case["fh_when"] == "fit" and not case["repeat_fh"] else fh_for(cutoff))
+    first_fh_given = not (need_fit and case["fh_when"] == "fit" and not case["repeat_fh"])
+    if case.get("insample_first") and first_fh_given and not pools.needs_fh_in_fit(spec) and not discs:
+        # a look back at the fitted values (steps <= 0, alone or with a step ahead) is a read:
+        # the cutoff stays the last training time point and the next forecast starts from it
+        import copy
+
+        back = [h for h in case["insample_first"] if h > -n0]
+        trial = sut(copy.deepcopy, f)
+        pb = sut(trial.predict, list(back)) if back and not isinstance(trial, Raised) else None
+        if isinstance(pb, pd.Series):
+            pb = sut(f.predict, list(back))
+            if isinstance(pb, Raised):
+                discs.append(D("predict_raised:%s@%s" % (pb.type, pb.where), "%s fh=%s succeeded on a copy and failed on the forecaster: %s" % (pools.describe(spec), back, pb.msg)))
+                return obs, discs
+            got = sut(lambda: _labels(pb.index))
+            if isinstance(got, Raised) or got != [cutoff + h for h in back]:
+                discs.append(D("forecast_index", "%s fh=%s (looking back): index %s expected %s" % (pools.describe(spec), back, list(pb.index), [cutoff + h for h in back])))
+            ahead = [i for i, h in enumerate(back) if h > 0]
+            if ahead and len(pb) == len(back) and not _has_boxcox(spec) and not np.all(np.isfinite(pb.to_numpy(dtype=float)[ahead])):
+                discs.append(D("forecast_not_finite", "%s fh=%s: %s" % (pools.describe(spec), back, pb.tolist())))
+            c = sut(lambda: f.cutoff)
+            if isinstance(c, Raised) or int(c) != cutoff:
+                discs.append(D("cutoff_after_looking_back", "%s: cutoff %r after predict(%s), expected %d" % (pools.describe(spec), c, back, cutoff)))
+            obs.append(("looked_back", None))
+            if discs:
+                return obs, discs
+    p = sut(f.predict, fh_for(cutoff) if first_fh_given else None)
     discs += check_pred(p, cutoff, steps, spec, "after fit")
     obs.append(("pred0", None if isinstance(p, Raised) else (_labels(p.index), p.to_numpy(dtype=float).tolist())))
     if _subset_consistent(spec) and not pools.needs_fh_in_fit(spec) and not discs and not isinstance(p, Raised) and steps != list(range(1, steps[-1] + 1)):
@@ -239,6 +265,8 @@ def oracle(case, ctx):
         ctx.label("cutoff_zero")
     if case.get("revision"):
         ctx.label("revision_update")
+    if case.get("insample_first"):
+        ctx.label("looks_back_first")
     obs, discs = run_history(spec, y, n0, steps, case)
     if discs:
         return discs
@@ -250,6 +278,7 @@ def oracle(case, ctx):
     obs2, discs2 = run_history(spec, y2, n0, steps, case)
     if discs2:
         return [D("shifted_run_fails:" + discs2[0]["kind"], "shift %d: %s" % (k, discs2[0]["detail"]))]
+    obs, obs2 = [o for o in obs if o[0] != "looked_back"], [o for o in obs2 if o[0] != "looked_back"]
     for (t1, a), (t2, b) in zip(obs, obs2):
         if t1.startswith("cutoff"):
             if a is None or b is None or b - a != k:
@@ -292,6 +321,8 @@ def cases(draw, depth=2, cheap=False):
         "repeat_fh": draw(st.booleans()), "int_dtype": draw(st.integers(0, 4)) == 0,
         "update_params": draw(st.lists(st.sampled_from([True, True, False]), min_size=1, max_size=3)),
         "other_kind": draw(st.booleans()),
+        "insample_first": draw(st.one_of(st.none(), st.none(), st.lists(st.integers(-4, 0), min_size=1, max_size=3, unique=True).map(sorted),
+                                         st.tuples(st.integers(-3, 0), st.integers(1, 3)).map(list))),
         "revision": draw(st.one_of(st.none(), st.none(), st.tuples(st.integers(1, 3), st.integers(1, 4)))),
         "shift": draw(st.sampled_from([1, -1, 7, -13, 100, -(start + n - 1) if start + n - 1 != 0 else 5])),
     }
